@@ -34,9 +34,9 @@ JSet(s) == {s[k] : k \in DOMAIN s}
 JPairs(s) == {<<s[k][1], s[k][2]>> : k \in DOMAIN s}
 JFun(s) == [x \in {s[k][1] : k \in DOMAIN s} |-> s[CHOOSE k \in DOMAIN s : s[k][1] = x][2]]
 JNode(n) == IF n.tag = "B" THEN Bucket(JSet(n.items))
-            ELSE Split([zero |-> n.zero, right |-> {}, ms |-> <<>>], n.l, n.r)
+            ELSE Split([zero |-> n.zero, right |-> {n.pt}, ms |-> <<>>], n.l, n.r)
 JNodeMs(n) == IF n.tag = "B" THEN Bucket(JSet(n.items))
-              ELSE Split([zero |-> n.zero, right |-> {}, ms |-> n.ms], n.l, n.r)
+              ELSE Split([zero |-> n.zero, right |-> {n.pt}, ms |-> n.ms], n.l, n.r)
 JNodes(ns) == [x \in {ns[k].id : k \in DOMAIN ns} |-> JNode(ns[CHOOSE k \in DOMAIN ns : ns[k].id = x])]
 JNodesMs(ns) == [x \in {ns[k].id : k \in DOMAIN ns} |-> JNodeMs(ns[CHOOSE k \in DOMAIN ns : ns[k].id = x])]
 JMeta(m) == IF m.has THEN [metric |-> m.metric, dim |-> m.dim, items |-> JSet(m.items), roots |-> m.roots]
@@ -273,6 +273,12 @@ PhaseDrift(e, pre, cap) ==
    \cup (IF P(2).nodes # x2.nodes \/ P(2).roots # x2.roots THEN {<<"C01", "phase_delete_items">>} ELSE {})
    \cup (IF ~covers(P(2), Live(pre) \ pre.updated) THEN {<<"C01", "phase_delete_items_coverage">>} ELSE {})
    \cup (IF ~covers(P(3), Live(pre)) THEN {<<"C01", "phase_insert_coverage">>} ELSE {})
+   \cup (IF P(2).roots # P(3).roots \/ \E k \in DOMAIN P(2).roots :
+               LET d == InsDiff(P(2).nodes, TreeRef(P(2).roots[k]), P(3).nodes, TreeRef(P(3).roots[k]), Fuel(P(3).nodes))
+               IN ~d.ok \/ d.added # (Live(pre) \cap pre.updated)
+          THEN {<<"C01", "phase_insert_relation">>} ELSE {})
+   \cup (IF \E m \in (DOMAIN P(3).nodes \ DOMAIN P(2).nodes) : ~IsBucket(P(3).nodes[m])
+          THEN {<<"C01", "phase_insert_created_something_else_than_buckets">>} ELSE {})
    \cup (IF Len(P(4).roots) # target \/ ~covers(P(4), Live(pre)) THEN {<<"C15", "phase_missing_trees">>} ELSE {})
    \cup (IF P(5).nodes # JNodes(e.st.nodes) THEN {<<"C01", "phase_split_is_not_final">>} ELSE {})
 
